@@ -15,6 +15,19 @@ CHECKS = {
     note="Trusted: Coq kernel; extraction (ExtrOcamlBasic) + OCaml driver; the correspondence harness; a page is "
          "abstracted to its top-level node list; sorted() modelled as a stable sort on start indices. No axioms.",
     technique="Coq proof of model = spec (induction, loop invariant on the open-heading stack) + model/implementation correspondence"),
+ "C13": dict(
+    category="proof",
+    text="Theorems (Coq, any element type, all states reachable by any sequence of operations on the parent or any sub-list): "
+         "every sub-list stays inside its parent (0<=start<=stop<=len) hence is always readable; each operation through a sub-list "
+         "has the result/exception/new content of the same operation on a plain list and the parent reflects it at the sub-list's "
+         "offset; every other sub-list keeps exactly its survivors in order and gains at most the operation's new elements "
+         "(view_after_splice); reverse/sort detach views with all their elements. The model follows the code method by method and is "
+         "tied to /repo by comparing result, parent and every view after every step of exhaustive single steps and random histories; "
+         "the plain-list spec is tied to CPython's list the same way.",
+    design_ref="DESIGN.md section 5, C13",
+    note="Trusted: Coq kernel; extraction + OCaml driver; harness. Model covers step-1 slices; extended slices, */*=, comparisons, "
+         "pickling and GC of views are outside. Hypothesis: the sort function preserves length. No axioms.",
+    technique="Coq proof (invariant by induction over operation sequences, refinement to plain-list splice) + model/implementation correspondence"),
 }
 
 NOT_YET = {}
